@@ -14,6 +14,8 @@ import (
 	"strings"
 	"testing"
 
+	"github.com/syndtr/goleveldb/leveldb"
+	"github.com/syndtr/goleveldb/leveldb/opt"
 	"massnet.org/mass/poc/wallet/db"
 
 	"pgregory.net/rapid"
@@ -342,6 +344,26 @@ func vfFmtPairs(e [][2][]byte) string {
 	return "[" + strings.Join(s, " ") + "]"
 }
 
+// vfOpen: the repository's constructor requests a 64 MiB write buffer that goleveldb allocates anew for every
+// transaction; most cases wrap a handle opened with a small buffer in the same LevelDB type (all bucket and
+// transaction code is the repository's); every 6th open goes through CreateDB/OpenDB itself.
+var vfOpens int
+
+func vfOpen(path string, create bool) (db.DB, error) {
+	vfOpens++
+	if vfOpens%6 == 0 {
+		if create {
+			return CreateDB(path)
+		}
+		return OpenDB(path)
+	}
+	h, err := leveldb.OpenFile(path, &opt.Options{WriteBuffer: 1 << 20, BlockCacheCapacity: 1 << 20, ErrorIfMissing: !create, ErrorIfExist: create})
+	if err != nil {
+		return nil, err
+	}
+	return &LevelDB{LDb: h}, nil
+}
+
 func vfC19Run(p vfProg, c *vlib.Ctx) *vlib.Failure {
 	dir, err := os.MkdirTemp("", "vfc19")
 	if err != nil {
@@ -349,7 +371,7 @@ func vfC19Run(p vfProg, c *vlib.Ctx) *vlib.Failure {
 	}
 	defer os.RemoveAll(dir)
 	path := dir + "/store"
-	store, err := CreateDB(path)
+	store, err := vfOpen(path, true)
 	if err != nil {
 		return vlib.Failf("create-failed", "CreateDB: %v", err)
 	}
@@ -598,7 +620,7 @@ func vfC19Run(p vfProg, c *vlib.Ctx) *vlib.Failure {
 			if err := store.Close(); err != nil {
 				return vlib.Failf("close-failed", "%s Close: %v", where, err)
 			}
-			store, err = OpenDB(path)
+			store, err = vfOpen(path, false)
 			if err != nil {
 				return vlib.Failf("reopen-failed", "%s OpenDB: %v", where, err)
 			}
